@@ -81,10 +81,13 @@ func ReadFrom(path string, off int64) (recs []Record, next int64, trailing bool,
 		if rerr != nil {
 			return recs, next, true, nil // member not complete (yet)
 		}
+		next = off + cr.n
+		if len(data) == 0 {
+			continue // an empty gzip member (written when a file is closed) holds no record
+		}
 		rec := parseRecord(data)
 		rec.File = path
 		recs = append(recs, rec)
-		next = off + cr.n
 	}
 }
 
